@@ -131,7 +131,7 @@ func VerifSORxSnapshot(s *UDPSession) string {
 	s.mu.Lock()
 	defer s.mu.Unlock()
 	k := s.kcp
-	out := fmtSprint("core", k.snd_una, k.snd_nxt, k.rcv_nxt, k.rmt_wnd, k.cwnd, k.incr, k.ssthresh, k.probe,
+	out := verifSOSprint("core", k.snd_una, k.snd_nxt, k.rcv_nxt, k.rmt_wnd, k.cwnd, k.incr, k.ssthresh, k.probe,
 		k.rx_srtt, k.rx_rttvar, k.rx_rto, k.snd_queue.Len(), k.snd_buf.Len(), k.rcv_queue.Len(), k.rcv_buf.Len(),
 		len(k.acklist), k.state, "bufptr", len(s.bufptr), "tok", len(s.chReadEvent), len(s.chWriteEvent))
 	if d := s.fecDecoder; d != nil {
@@ -141,7 +141,7 @@ func VerifSORxSnapshot(s *UDPSession) string {
 			sets++
 			shards += h.Len()
 		}
-		out += fmtSprint(" dec", d.dataShards, d.parityShards, d.paws, d.newestShardId, d.shouldTune, sets, shards,
+		out += verifSOSprint(" dec", d.dataShards, d.parityShards, d.paws, d.newestShardId, d.shouldTune, sets, shards,
 			d.autoTune.head, d.autoTune.tail, d.autoTune.count)
 		var h uint64 = 1469598103934665603
 		for i := 0; i < d.autoTune.count; i++ {
@@ -152,23 +152,23 @@ func VerifSORxSnapshot(s *UDPSession) string {
 			}
 			h = (h ^ b) * 1099511628211
 		}
-		out += fmtSprint(" tune", h)
+		out += verifSOSprint(" tune", h)
 	}
 	return out
 }
 
-func fmtSprint(a ...any) string {
+func verifSOSprint(a ...any) string {
 	s := ""
 	for i, x := range a {
 		if i > 0 {
 			s += " "
 		}
-		s += verifItoa(x)
+		s += verifSOItoa(x)
 	}
 	return s
 }
 
-func verifItoa(x any) string {
+func verifSOItoa(x any) string {
 	switch v := x.(type) {
 	case string:
 		return v
@@ -178,18 +178,18 @@ func verifItoa(x any) string {
 		}
 		return "f"
 	case int:
-		return itoa64(int64(v))
+		return verifSOItoa64(int64(v))
 	case int32:
-		return itoa64(int64(v))
+		return verifSOItoa64(int64(v))
 	case uint32:
-		return itoa64(int64(v))
+		return verifSOItoa64(int64(v))
 	case uint64:
-		return itoa64(int64(v>>1)) + "." + itoa64(int64(v&1))
+		return verifSOItoa64(int64(v>>1)) + "." + verifSOItoa64(int64(v&1))
 	}
 	return "?"
 }
 
-func itoa64(v int64) string {
+func verifSOItoa64(v int64) string {
 	if v == 0 {
 		return "0"
 	}
@@ -209,4 +209,17 @@ func itoa64(v int64) string {
 		b[i] = '-'
 	}
 	return string(b[i:])
+}
+
+// VerifSOMaxQueued is the longest payload among the segments waiting in snd_queue and snd_buf.
+func VerifSOMaxQueued(s *UDPSession) (n int) {
+	s.mu.Lock()
+	defer s.mu.Unlock()
+	for seg := range s.kcp.snd_queue.ForEach {
+		n = max(n, len(seg.data))
+	}
+	for seg := range s.kcp.snd_buf.ForEach {
+		n = max(n, len(seg.data))
+	}
+	return
 }
